@@ -111,7 +111,7 @@ def strip_coq_comments(txt):
     return "".join(out)
 
 
-def build_coq(timeout=1500):
+def build_coq(timeout=1500, prop=None):
     """full .vo build of the development (make is a no-op when fresh). Returns (ok, log)."""
     with Lock("coq", shared=True):
         srcs = coq_sources()
@@ -125,8 +125,35 @@ def build_coq(timeout=1500):
                 return False, out
             with open(stamp, "w") as f:
                 f.write(want)
-        rc, out = sh(["make", "-j%d" % NCPU], cwd=COQ, timeout=timeout)
+        rc, out = sh(["make", "-k", "-j%d" % NCPU], cwd=COQ, timeout=timeout)
+        if rc != 0 and prop:
+            # something does not compile: what matters to this check is its own property file and the comparison
+            # functions its generated cases use (and everything those depend on)
+            targets = ["theories/Properties/%s.vo" % prop] + \
+                      [t[:-2] + ".vo" for t in srcs if t.startswith("theories/Corr/")]
+            targets = [t for t in targets if os.path.exists(os.path.join(COQ, t[:-1]))]
+            rc2, out2 = sh(["make", "-k", "-j%d" % NCPU] + needed_targets(prop, targets), cwd=COQ, timeout=timeout)
+            return rc2 == 0, out + "\n--- closure of %s ---\n" % prop + out2
         return rc == 0, out
+
+
+def needed_targets(prop, targets):
+    """Properties/<prop>.vo plus the Corr files named by the property's check module or by the lib modules it imports"""
+    seen, todo, used = set(), [os.path.join(ROOT, "lib", "props", prop.lower() + ".py")], set()
+    while todo:
+        f = todo.pop()
+        if f in seen or not os.path.exists(f):
+            continue
+        seen.add(f)
+        txt = open(f).read()
+        used |= set(re.findall(r"Corr\.([A-Za-z0-9_]+)", txt))
+        for names in re.findall(r"^\s*(?:import|from props import|from \S+ import)\s+([A-Za-z0-9_., ]+)", txt, re.M):
+            for n in re.split(r"[,\s]+", names):
+                n = n.split(".")[-1]
+                todo += [os.path.join(ROOT, "lib", n + ".py"), os.path.join(ROOT, "lib", "props", n + ".py")]
+    res = [t for t in targets if "/Properties/" in t]
+    res += [t for t in targets if "/Corr/" in t and os.path.basename(t)[:-3] in used]
+    return res
 
 
 THM_RE = re.compile(r"^\s*(Theorem|Corollary|Lemma|Example|Proposition|Fact)\s+([A-Za-z0-9_']+)", re.M)
@@ -174,7 +201,9 @@ def coq_eval(workdir, name, text, timeout=900):
     path = os.path.join(workdir, name + ".v")
     with open(path, "w") as f:
         f.write(text)
-    rc, out = sh(["coqc", "-Q", os.path.join(COQ, "theories"), "TaskctlV", path], cwd=workdir, timeout=timeout)
+    # generated cases may hold byte lists of 64 KiB: coqc needs more than the default 8 MiB stack to read them
+    rc, out = sh("ulimit -s 1000000 2>/dev/null || ulimit -s unlimited 2>/dev/null; exec coqc -Q '%s' TaskctlV '%s'" % (os.path.join(COQ, "theories"), path),
+                 cwd=workdir, timeout=timeout)
     return rc, out
 
 
